@@ -46,16 +46,40 @@ CLAIMED = {
             "Lookup succeeds exactly for current holders in every reachable state; groups exist exactly while a holder exists; a holder arriving "
             "after the last one left gets a freshly built instance. Panic-freedom of the expect sites is covered by the correspondence (panic "
             "capture) and, for the data lookups, by C04.no_panic; a full totality theorem is not proved (partial)." + CORR, "§5 C07"),
+    "C08": ("Lean 4 theorems (suppressed binding is skipped untouched; the test reads only the physical input; induction over arbitrary frame "
+            "histories; after the first inactive frame the binding is bisimilar to a never-suppressed one) + checked correspondence incl. "
+            "contexts created above/below consumers of the same held input",
+            "A new binding contributes nothing and drives none of its machines while its input has been physically held since creation, for "
+            "every history; it behaves like any other binding after the first physically inactive evaluation." + CORR, "§5 C08"),
     "C10": ("Lean 4 theorems (per-step equations; induction over arbitrary state/delta histories) + checked correspondence",
             "Elapsed/fired durations are characterised for every state history and every sequence of non-negative deltas; payload = polled." + CORR, "§5 C10"),
     "C12": ("Lean 4 theorems (log of the evaluation equals the canonical invocation list, for arbitrary machines; independence from consumption) "
             "+ checked correspondence on instrumented conditions/modifiers",
             "Each modifier/condition past the held-input suppression is invoked exactly once per frame in the canonical order, with no "
             "hypothesis on results, blockers, consumption or state; proved for actions and whole context instances." + CORR, "§5 C12"),
+    "C13": ("Lean 4 theorems (re-binding keeps position and key bijection; append lemma and frame lemma for the action loop: earlier actions "
+            "show this frame's data, later ones and self the previous frame's; Chord / BlockBy / AccumulateBy characterised incl. absent actions) "
+            "+ checked correspondence over all binding orders with forward/backward/self/absent references",
+            "Binding order, in-place re-binding and cross-action visibility are proved for every context; the three referencing built-ins are "
+            "characterised exactly." + CORR, "§5 C13"),
     "C14": ("Lean 4 theorems (fan-out of trigger_events to exactly the given entity list, once per holder by Nodup of the holder list from the "
             "registry invariant; recipients of shared / exclusive group updates by induction over the loops) + checked correspondence",
             "Every event of a shared instance goes exactly once to each holder with identical payload and to nobody else; exclusive instances "
             "deliver only to their owner and their state depends on other instances only through the reader." + CORR, "§5 C14"),
+    "C15": ("Lean 4 theorems about the reader model (extracted left/right modifier table; activity formula; congruence on the named keys; "
+            "gamepad selection) + checked correspondence incl. all 16 masks x all 256 modifier-key subsets",
+            "Keyboard/mouse bindings are active iff key/button (or non-zero delta) and, per required modifier, left or right variant - "
+            "irrespective of other keys; single-gamepad contexts read only their gamepad; `Any` sees any pressed button and the unique "
+            "non-zero axis. Partial: that Bevy's input resources hold what devices sent is Bevy's contract (modelled)." + CORR, "§5 C15"),
+    "C16": ("Lean 4 theorems about the reader model (UI flag recomputed per frame; mouse inputs masked, keyboard/gamepad unchanged) + checked "
+            "correspondence with Interaction components set by the harness",
+            "With an interacted UI element all mouse-sourced inputs read inactive and keyboard/gamepad inputs are unchanged; without one "
+            "nothing is masked. Partial: bevy_ui's own Interaction detection is outside the model." + CORR, "§5 C16"),
+    "C18": ("Lean 4 theorems over exact rationals (Mathlib order/field lemmas: dead-zone range, sign, monotonicity, saturation; lerp between; "
+            "swizzle permutation and losslessness; zero-to-zero; dimension rules) + checked correspondence on direct apply calls (dense grid, "
+            "random values, short exact DeltaLerp chains) and in real contexts",
+            "All listed algebraic laws are proved for all values and parameters in the documented domains. Partial: radial dead zone for an "
+            "abstract length function, natural exponents only, f32 rounding not modelled (exact grids in the correspondence)." + CORR, "§5 C18"),
     "C20": ("Lean 4 theorems about the value model (case analysis over all values/dimensions) + checked correspondence on direct ActionValue API calls",
             "All conversion laws are proved in Lean for every value and dimension over exact rationals; the model is tied to the real "
             "ActionValue API by running both on an exhaustive grid and random dyadic values and comparing byte for byte.", "§5 C20"),
